@@ -137,7 +137,12 @@ class JobArrayer:
             return
 
         if self._monitor_thread.is_alive():
-            return
+            if not self._exit_flag.is_set():
+                return
+            # A stop() is in flight: the old thread will exit without flushing the job that
+            # was just added, so wait for it to finish and then start a replacement.
+            if threading.current_thread() is not self._monitor_thread:
+                self._monitor_thread.join()
 
         # Initialize a new Thread here in case a previous one has completed,
         # since Threads can't be started more than once.
@@ -146,9 +151,11 @@ class JobArrayer:
         self._monitor_thread.start()
 
     def stop(self) -> None:
+        # Capture the thread first: a concurrent start() may replace it with a fresh one.
+        thread = self._monitor_thread
         self._exit_flag.set()
-        if self._monitor_thread.is_alive():
-            self._monitor_thread.join()
+        if thread.is_alive():
+            thread.join()
 
     def add_job(self, job: Job) -> None:
         """Adds a new job"""
